@@ -15,6 +15,7 @@ open IV IV.Proto IV.CleanState
   init  fqdn obf obf6 obfhost obfmac kws pats hostre      new Cleaner                                   → ok
   clean noobf noredact allow line…            one clean_content call                                   → `ok` TAB out-line…
   cleanw noobf noredact allow line…           the same with width=True                                 → `ok` TAB out-line… | raised
+  cleans noobf noredact allow text            clean_content on ONE string                              → None | S TAB text
   fset N|L|text  /  cfile noobf noredact allow   the file at the path; one clean_file call on it         → N | L | F TAB text
   map                                         mapping() of ip, host, mac, ipv6, keyword                → five list fields
   write hostctx hascleaner noobf noredact allow line…     ContentProvider.write                        → E1 | E2 | S TAB text
@@ -232,6 +233,12 @@ def handle (d : D) (fs : List String) : D × String :=
             s!"G\t{t.length}\t{polyHash t}\t{encStr (t.take 120)}\t{encStr (t.drop (t.length - 120))}"
           else "F\t" ++ encStr t)
     | _, _ => (d, "bad-op")
+  | ["cleans", noobf, noredact, allow, text] =>
+    match d.cfg, mkCall noobf noredact allow [], decStr text with
+    | some cfg, some call, some t =>
+      let r := cleanString d.env cfg d.st call t
+      ({ d with st := r.1 }, match r.2 with | some o => "S\t" ++ encStr o | none => "None")
+    | _, _, _ => (d, "bad-op")
   | ["map"] =>
     match d.cfg with
     | some cfg =>
